@@ -439,6 +439,16 @@ pub fn run(args: &Args) {
             ("東京都に行った。京都に行った。\n\n".as_bytes().to_vec(), "A", false, true, "yes"),
             (b"".to_vec(), "C", false, false, "yes"),
         ];
+        // directed: what the path-rewrite plugins join (numerals, katakana runs) must come out the same in every output format
+        for t in ["123円\n", "1,000.5円に2024年\n", "アイアイウ\n", "東京都に12.5行った。京都に3,000行った\n", "二千五百万と六三四\n"] {
+            for (w, a) in [(true, false), (false, false), (false, true)] {
+                for sp in ["yes", "no"] {
+                    for m in ["A", "C"] {
+                        v.push((t.as_bytes().to_vec(), m, w, a, sp));
+                    }
+                }
+            }
+        }
         for _ in 0..args.n(60, 600) {
             let wakati = rng.chance(1, 2);
             let split = *rng.pick(&["yes", "no", "no", "only"][..]);
